@@ -13,7 +13,7 @@ All theorems are about the executable model the driver runs (`Model/C10.lean`:
   memo cell is empty or filled;
 * `createCache m0 = .ok k0`: the model evaluates at its own initial state.
 -/
-import MxlVerif.Lemmas.C10Rhs
+import MxlVerif.Lemmas.C10Misc
 namespace Mxl.C10
 
 /-! ## the refinement: every read answers what the stateless pointwise specification says -/
@@ -27,13 +27,14 @@ def queryOk (res : Res) (m0 : Content) : Query → Bool
 /-- **Main theorem (partial: F-C10-2 excluded).**  Whatever was read before, in whatever
     order, and whatever numbers the shared model's parameters hold now: a read that
     succeeds returns exactly `specRead res m0 q` — row `(i, t)` evaluated pointwise under
-    segment `i`'s parameters, normalised per global row, stacked in order — and leaves
-    the object in a state where this holds again. -/
+    segment `i`'s parameters, normalised per global row, stacked in order — leaves the
+    object in a state where this holds again, and hands the shared model back exactly as
+    it found it. -/
 theorem C10_read_refines_spec_partial {res : Res} {m0 : Content} {k0 : Cache} {st st' : St}
     {q : Query} {v : View} (wf : WF res m0) (hm0 : createCache m0 = .ok k0)
     (hi : Inv res m0 st) (hq : queryOk res m0 q = true)
     (h : read res q st = .ok (v, st')) :
-    specRead res m0 q = .ok v ∧ Inv res m0 st' := by
+    specRead res m0 q = .ok v ∧ Inv res m0 st' ∧ st'.model = st.model := by
   cases q with
   | args f n cc => exact getArgsV_spec wf hm0 hi h
   | vars dv ro sv n cc => exact getVariablesV_spec wf hm0 hi h
@@ -122,16 +123,19 @@ example : queryOk witnessRes witnessContent (.prodCons false "y" true (.list [2,
 def eventOk (res : Res) (m0 : Content) : Event → Prop
   | .read q => queryOk res m0 q = true
   | .setPars p => PlainOnly m0 p
+  | .modelPars => True
 
-/-- **Idempotence / order independence.**  In any history of reads and numeric parameter
-    changes on the shared model, every read that succeeds returns the stateless
-    specification's answer — which mentions neither the history nor the model's current
-    parameter values. -/
+/-- **Idempotence / order independence / no side effect on the model.**  In any history of
+    reads, numeric parameter changes on the shared model and looks at the model's
+    parameters: every event that succeeds returns what the specification returns — reads
+    are answered from `(res, m0)` alone (neither the history nor the model's current
+    parameter values are mentioned), and the model's owner sees exactly the parameters he
+    set (`cur` is only changed by `setPars`). -/
 theorem C10_idempotent {res : Res} {m0 : Content} {k0 : Cache} (wf : WF res m0)
     (hm0 : createCache m0 = .ok k0) :
     ∀ (evs : List Event) (st : St), Inv res m0 st → (∀ e ∈ evs, eventOk res m0 e) →
       All₂ (fun r s => ∀ v, r = .ok v → s = .ok v)
-        (runHistory res evs st) (specHistory res m0 evs) := by
+        (runHistory res evs st) (specHistory res m0 st.model evs) := by
   intro evs
   induction evs with
   | nil => intro st _ _; exact .nil
@@ -143,18 +147,31 @@ theorem C10_idempotent {res : Res} {m0 : Content} {k0 : Cache} (wf : WF res m0)
       have hq : queryOk res m0 q = true := hok (.read q) (by simp)
       simp only [runHistory, specHistory]
       split
-      · rename_i e' _
-        exact .cons (fun v hv => by cases hv) (ih st hi hrest)
+      · exact .cons (fun v hv => by cases hv) (ih st hi hrest)
       · rename_i v st' hr
-        obtain ⟨hs, hi'⟩ := C10_read_refines_spec_partial wf hm0 hi hq hr
-        exact .cons (fun v' hv' => by cases hv'; exact hs) (ih st' hi' hrest)
+        obtain ⟨hs, hi', hm⟩ := C10_read_refines_spec_partial wf hm0 hi hq hr
+        have := ih st' hi' hrest
+        rw [hm] at this
+        exact .cons (fun v' hv' => by cases hv'; exact hs) this
     | setPars p =>
       have hp : PlainOnly m0 p := hok (.setPars p) (by simp)
       simp only [runHistory, specHistory]
       split
-      · exact .cons (fun v hv => by cases hv) (ih st hi hrest)
+      · rename_i e' he'
+        rw [he']
+        exact .cons (fun v hv => by cases hv) (ih st hi hrest)
       · rename_i c hw
-        exact .cons (fun v hv => by cases hv; rfl) (ih _ (hi.setPars hp hw) hrest)
+        rw [hw]
+        exact .cons (fun v hv => hv) (ih _ (hi.setPars hp hw) hrest)
+    | modelPars =>
+      simp only [runHistory, specHistory]
+      exact .cons (fun v hv => hv) (ih st hi hrest)
+
+/-- **A read does not change the model it shares with its owner** (after `fix: restore the
+    model's parameters …`; before it, every read left the last segment's parameters
+    behind — finding F-C10-5). -/
+theorem C10_read_leaves_model_untouched {res : Res} {q : Query} {st st' : St} {v : View}
+    (h : read res q st = .ok (v, st')) : st'.model = st.model := read_model h
 
 /-- two successful reads of the same query return the same view, whatever the two
     histories of the object were -/
@@ -181,34 +198,6 @@ theorem C10_snapshot_absorbs {m0 c : Content} {p : Pars} (h : PlainEq m0 c) (hc 
     withPars c p = withPars m0 p := withPars_absorb h hc
 
 /-! ## what a view row is -/
-
-theorem zipWithE_get {α β γ} {f : α → β → Except Err γ} {l : List α} {m : List β}
-    {out : List γ} (h : zipWithE f l m = .ok out) :
-    ∀ (i : Nat) (a : α) (b : β), l[i]? = some a → m[i]? = some b →
-      ∃ c, out[i]? = some c ∧ f a b = .ok c := by
-  induction l generalizing m out with
-  | nil => intro i a b ha; simp at ha
-  | cons x xs ih =>
-    cases m with
-    | nil => simp [zipWithE] at h
-    | cons y ys =>
-      unfold zipWithE at h
-      split at h
-      · cases h
-      · rename_i c hc
-        split at h
-        · cases h
-        · rename_i cs hcs
-          cases h
-          intro i a b ha hb
-          cases i with
-          | zero => simp at ha hb; subst ha; subst hb; exact ⟨c, by simp, hc⟩
-          | succ i => simp at ha hb; simpa using ih hcs i a b ha hb
-
-theorem mapE_get {α β} {f : α → Except Err β} {l : List α} {out : List β}
-    (h : mapE f l = .ok out) (i : Nat) (a : α) (ha : l[i]? = some a) :
-    ∃ b, out[i]? = some b ∧ f a = .ok b :=
-  ((mapE_ok_iff f l out).1 h).get i a ha
 
 /-- **Row `(i, j)` of an argument view** (any flag combination) is the core's pointwise
     row under the model with *segment `i`'s* snapshot applied, at that row's state and time,
@@ -318,27 +307,6 @@ theorem C10_rhs_row_is_core_rhs {c : Content} {cache : Cache} {t : Rat} {s full 
   exact rhsFromArgs_congr hagree
 
 /-! ## concatenated view = per-segment views stacked in order -/
-
-theorem adjust_concat {tabs : List Table} {n : Norm} {v : View} :
-    adjust tabs n true = .ok v ↔
-      ∃ F, adjust tabs n false = .ok (.frames F) ∧ F ≠ [] ∧ v = .frame F.flatten := by
-  unfold adjust
-  cases normSplit tabs n with
-  | error e => simp
-  | ok F =>
-    simp only [if_true, Bool.false_eq_true, if_false]
-    constructor
-    · intro h
-      split at h
-      · cases h
-      · rename_i hne
-        cases h
-        exact ⟨F, rfl, by simpa using hne, rfl⟩
-    · intro ⟨F', hF, hne, hv⟩
-      cases hF
-      subst hv
-      have : F.isEmpty = false := by cases F <;> simp_all
-      simp [this]
 
 /-- **Concatenated = stacked.**  For the argument views (hence variables and fluxes) and
     the derivative view: the concatenated call returns exactly the rows of the
